@@ -1085,10 +1085,12 @@ def run_race_case(c):
     from scrapli.decorators import timeout_wrapper
     from scrapli.exceptions import ScrapliTimeout
     from scrapli.settings import Settings
-    src, start = inspect.getsourcelines(decorators.timeout_wrapper)
-    lines = [start + i for i, l in enumerate(src) if "setitimer(signal.ITIMER_REAL,0)" in l.replace(" ", "")]
+    # the disarming line(s), wherever the signal block lives: timeout_wrapper itself or a module-level helper it was moved into
+    src, start = inspect.getsourcelines(decorators)
+    lines = [max(start, 1) + i for i, l in enumerate(src) if "setitimer(signal.ITIMER_REAL,0)" in l.replace(" ", "")]
     if not lines:
-        return {"harness_error": "no `setitimer(signal.ITIMER_REAL, 0)` line found in timeout_wrapper"}
+        return {"harness_error": "no `setitimer(signal.ITIMER_REAL, 0)` line found in scrapli/decorators.py"}
+    dec_file = decorators.__file__
     T = type("ParamikoTransport", (RigTransportBase,), {})(True, time.monotonic() + 5)
 
     def f(self_):
@@ -1101,7 +1103,7 @@ def run_race_case(c):
     fired, alarms, res = [], [], {}
 
     def tracer(frame, event, arg):
-        if frame.f_code.co_name != "decorate":
+        if frame.f_code.co_filename != dec_file:
             return None
 
         def local(frame, event, arg):
@@ -1795,6 +1797,8 @@ def run(tier, seed):
         translate.translate(PID)
         import gen.c07 as g
         t = g.tables()
+        if t.get("notes"):
+            ck.extra["translator_notes"] = t["notes"]
         from scrapli import decorators
         from scrapli.settings import Settings
         if dict(t["messageMap"]) != decorators.FUNC_TIMEOUT_MESSAGE_MAP:
